@@ -105,7 +105,7 @@ func cmdCheck(args []string) int {
 	if spec.Precise != "" && os.Getenv("VERIF_SOLVER") == "" {
 		preciseBin = spec.Precise
 	}
-	outDir := filepath.Join(verifDir, "out", id)
+	outDir := filepath.Join(outRoot, "out", id)
 	os.RemoveAll(outDir)
 	os.MkdirAll(outDir, 0o755)
 
@@ -386,8 +386,8 @@ func (ev *Evidence) write(wall float64, violations int) {
 		"assumptions": ev.spec.Assumptions, "wall_s": round2(wall), "violations": violations,
 	}
 	b, _ := json.MarshalIndent(doc, "", " ")
-	os.MkdirAll(filepath.Join(verifDir, "evidence"), 0o755)
-	os.WriteFile(filepath.Join(verifDir, "evidence", ev.spec.ID+".json"), b, 0o644)
+	os.MkdirAll(filepath.Join(outRoot, "evidence"), 0o755)
+	os.WriteFile(filepath.Join(outRoot, "evidence", ev.spec.ID+".json"), b, 0o644)
 }
 
 // ---------- replay ----------
@@ -413,7 +413,7 @@ func replayCex(path string) (status, detail string) {
 	if l, err := pkgNameOf(rel); err == nil {
 		pkgName = l
 	}
-	gen := filepath.Join(verifDir, "out", "gen", rel)
+	gen := filepath.Join(outRoot, "out", "gen", rel)
 	os.MkdirAll(gen, 0o755)
 	testFile := filepath.Join(gen, "zz_verif_replay_test.go")
 	src := fmt.Sprintf(`package %s
@@ -440,7 +440,7 @@ func TestVerifReplay(t *testing.T) {
 	}
 	ov["Replace"][filepath.Join(repoDir, rel, "zz_verif_replay_test.go")] = testFile
 	ob, _ := json.Marshal(ov)
-	ovPath := filepath.Join(verifDir, "out", "gen", "overlay.json")
+	ovPath := filepath.Join(outRoot, "out", "gen", "overlay.json")
 	os.WriteFile(ovPath, ob, 0o644)
 	env := append(goEnv(), "VERIF_CEX="+path)
 	out, err := runCmd(repoDir, env, 5*time.Minute, "go", "test", "-v", "-count=1", "-vet=off", "-overlay", ovPath, "-run", "^TestVerifReplay$", "./"+rel)
